@@ -222,8 +222,8 @@ func runLimitCase(r *mon.Run, c LimitCase) {
 			return
 		}
 		countLatency(r, "limit", p.latency())
-		if !node.WaitRun(settleBound) {
-			r.Inconclusive("limits: Run did not return after Close")
+		if !node.WaitRun(livenessBound) {
+			r.Violation("run-outlives-close", "Run had not returned 30 s after Close returned", c, limitlab.Keys(limitlab.Inventory(nil)))
 		}
 	}()
 
